@@ -141,6 +141,17 @@ impl TimeStrategy {
     }
 
     fn is_force_stopped(&self) -> bool {
+        #[cfg(jgilchrist_tcheran_verif)]
+        if crate::engine::util::verif::poll() {
+            return true;
+        }
+
         self.force_stop.load(Ordering::Relaxed)
+    }
+
+    /// Verification hook: the computed (soft, hard) limits.
+    #[cfg(jgilchrist_tcheran_verif)]
+    pub fn verif_limits(&self) -> (Duration, Duration) {
+        (self.soft_stop, self.hard_stop)
     }
 }
